@@ -104,7 +104,30 @@ def selfunequal(p):
     return mk('split_selfunequal', ints('v', n), pre, body)
 
 
-FAMILIES = {'runs': runs, 'step': step, 'selfunequal': selfunequal}
+def many_keys(p):
+    """K keys live at once under group_by (K crosses cache capacities / growth steps 8, 16, 32): every key gets an item, then keys 0, 1 and K-1 get items with
+    symbolic values (a segment boundary or not), then every key gets a last item; per key the segments are the maximal runs of equal predicate value"""
+    from vp import refsem as R
+    from vp.props.common import multiset_eq
+    K = p['k']
+
+    def pred(i):
+        return (i[1] % 3,)
+
+    def body(a):
+        v0, v1, v2, v3 = a
+        items = [(0, v0)] + [(k, 5) for k in range(1, K)] + [(0, v1), (K - 1, v2), (1, v3)] + [(k, 5) for k in range(K)]
+        inner_real = [rs.data.to_list(), rs.ops.map(lambda l: tuple(l))]
+        inner_ref = [R.Scan(lambda acc, i: acc + [i], list, reduce=True), R.Map(lambda l: tuple(l))]
+        real = [rs.ops.group_by(lambda i: i[0], [rs.data.split(pred, inner_real)])]
+        ref = [R.GroupBy(lambda i: i[0], [R.Split(pred, inner_ref)])]
+        got = D.run_mux(items, real)
+        exp = [v for _, v in R.run(ref, items)]
+        return multiset_eq(got, exp) or fail(keys=K, items=items, observed=got, expected=exp)
+    return mk('split_many_keys', ints('v', 4), ['-2**40 <= v%d <= 2**40' % i for i in range(4)], body)
+
+
+FAMILIES = {'runs': runs, 'step': step, 'selfunequal': selfunequal, 'many_keys': many_keys}
 
 
 def obligations(tier, seed):
@@ -128,5 +151,7 @@ def obligations(tier, seed):
             obs.append(Ob(PROP, 'runs', dict(ctx=ctx, pred='tup3', inner='to_list', n=3, retry=k), budget=300 if q else 900, group='after an aborted subscription', bound=dict(items=3, ctx=ctx, first_subscription_aborted_after=k)))
     for n in ((2, 3, 4) if q else (2, 3, 4, 5, 6)):
         obs.append(Ob(PROP, 'selfunequal', dict(n=n), budget=300 if q else 900, group='self-unequal predicate value', bound=dict(items=n, predicate='shared NaN object for odd items')))
+    for k in ((9, 17, 33) if q else (9, 10, 17, 33, 65)):
+        obs.append(Ob(PROP, 'many_keys', dict(k=k), budget=300 if q else 900, group='many live keys', bound=dict(live_keys=k, symbolic_items=4)))
     obs.append(Ob(PROP, 'runs', dict(ctx='root', pred='tup3', inner='to_list', n=3, _twin='reach'), budget=60, expect='refute'))
     return obs
